@@ -1303,6 +1303,7 @@ const MUTATIONS: &[(&str, &str)] = &[
     ("transactions", "dup_last"),
     ("transactions", "drop_last"),
     ("transactions", "alter_first"),
+    ("transactions", "alter_last"),
     ("transactions", "push_new"),
     ("transactions", "swap_first_two"),
     ("signatures", "push"),
@@ -1339,8 +1340,8 @@ fn mutate_block(rc: &RawChain, b: &Block, field: &str, variant: &str) -> Option<
         ("transactions", "drop_last") => {
             n.transactions.pop()?;
         }
-        ("transactions", "alter_first") => {
-            let t = n.transactions.first_mut()?;
+        ("transactions", "alter_first" | "alter_last") => {
+            let t = if variant == "alter_first" { n.transactions.first_mut()? } else { n.transactions.last_mut()? };
             *t = match t {
                 Transaction::Put { key, data } => {
                     let mut a = [0u8; 8];
@@ -2060,12 +2061,235 @@ fn gen_fp_steps(r: &mut Rng, nrep: usize) -> Vec<FpStep> {
     steps
 }
 
+// ------------------------------------------------------------------ stream tamper.tx: ONE transaction of a stored block altered
+
+/// a stored block of a verifying chain built through the public interface had ONE of its transactions replaced by a
+/// different one (same number of transactions, header untouched), and verification still returns Ok
+const ALTERED_TX_CLASS: &str = "tensor_chain.verify/altered_transaction_not_detected";
+/// the same on the block alone: `compute_tx_root` / `verify_tx_root` do not notice the replaced transaction
+const ALTERED_LEAF_CLASS: &str = "tensor_chain.block.merkle/altered_transaction_same_tx_root";
+/// transactions added to / removed from a stored block, undetected, and NOT by the known duplicated-tail weakness
+const TX_COUNT_CLASS: &str = "tensor_chain.verify/transaction_count_change_not_detected";
+
+/// What the documented `merkle_root` computes (every level pairs its nodes, an odd last node with itself), as a
+/// term over an injective symbolic hash: two transaction lists have equal terms exactly when the documented tree
+/// gives them one root WHATEVER the hash function — the known duplicated-tail weakness and nothing else.
+fn symbolic_tx_root(txs: &[Transaction]) -> String {
+    if txs.is_empty() {
+        return "0".into();
+    }
+    let mut level: Vec<String> = txs.iter().map(|t| format!("<{t:?}>")).collect();
+    while level.len() > 1 {
+        level = level.chunks(2).map(|c| format!("({}|{})", c[0], c.get(1).unwrap_or(&c[0]))).collect();
+    }
+    level.remove(0)
+}
+
+/// one transaction of a `tamper.tx` case and the block it goes into (equal `block` = same block, in list order);
+/// `altered` marks THE transaction that is replaced in the stored block afterwards
+#[derive(Clone, Debug)]
+struct TxItem {
+    block: usize,
+    tx: Tx,
+    altered: bool,
+}
+struct TxAlterOut {
+    /// the case could not be set up as intended (no marked transaction, replacement = original, a block refused)
+    skipped: Option<String>,
+    blocks: Vec<Vec<Tx>>,
+    /// (height of the altered block, position in its transaction list)
+    target: (u64, usize),
+    original: String,
+    verify_before: String,
+    verify_after: String,
+    /// `compute_tx_root()` of the altered block equals the original's; `verify_tx_root()` of the altered block
+    root_same: bool,
+    root_verifies: bool,
+    disagreements: Vec<(String, String, String)>,
+}
+impl TxAlterOut {
+    fn undetected(&self) -> bool {
+        self.skipped.is_none() && self.verify_before == "ok" && self.verify_after == "ok"
+    }
+    fn same_root(&self) -> bool {
+        self.skipped.is_none() && (self.root_same || self.root_verifies)
+    }
+}
+/// the items grouped into blocks (heights 1, 2, … in list order) and the marked transaction's (height, position)
+fn tx_case_blocks(items: &[TxItem]) -> (Vec<Vec<Tx>>, Option<(u64, usize)>) {
+    let mut blocks: Vec<Vec<Tx>> = Vec::new();
+    let mut last = None;
+    let mut target = None;
+    for it in items {
+        if last != Some(it.block) {
+            blocks.push(Vec::new());
+            last = Some(it.block);
+        }
+        let h = blocks.len() as u64;
+        let b = blocks.last_mut().unwrap();
+        if it.altered && target.is_none() {
+            target = Some((h, b.len()));
+        }
+        b.push(it.tx.clone());
+    }
+    (blocks, target)
+}
+/// Build a chain holding the blocks of `items` through the public interface — `public`: a `TensorChain`, one
+/// workspace (begin / add_operation / commit) per block, checked with `verify()`; otherwise a `Chain` with a validator
+/// registry, one signed block per `append`, checked with `verify_chain()` —, then replace the marked transaction of the
+/// STORED block by `repl` and verify again.  The model follows (`init`/`begin`/`put`…/`commit`/`naltertx`/`state`, or
+/// `cinit`/`cappend`/`altertx`/`cverify`) until the first disagreement; the real objects are driven to the end.
+fn run_tx_alter_case(mut m: Option<&mut Model>, public: bool, items: &[TxItem], repl: &Tx) -> TxAlterOut {
+    let (blocks, target) = tx_case_blocks(items);
+    let mut out = TxAlterOut { skipped: None, blocks: blocks.clone(), target: target.unwrap_or((0, 0)), original: String::new(), verify_before: String::new(), verify_after: String::new(), root_same: false, root_verifies: false, disagreements: vec![] };
+    let Some((th, pos)) = target else {
+        out.skipped = Some("no marked transaction".into());
+        return out;
+    };
+    let mut follow = m.is_some();
+    // compare one answer with the model's (only while the model is followed)
+    fn cmp(m: &mut Option<&mut Model>, follow: &mut bool, out: &mut TxAlterOut, imp: &str, line: &str, cut: Option<&str>) {
+        if !*follow {
+            return;
+        }
+        if let Some(m) = m.as_deref_mut() {
+            let mut model = m.ask(line);
+            if let Some(c) = cut {
+                model = model.split(c).next().unwrap_or("").to_string();
+            }
+            let (a, b) = reconcile(imp, &model);
+            if a != b {
+                out.disagreements.push((line.to_string(), imp.to_string(), model));
+                *follow = false;
+            }
+        }
+    }
+    let alter = |store: &TensorStore, out: &mut TxAlterOut| -> bool {
+        let Some(orig) = read_block(store, th) else {
+            out.skipped = Some(format!("no stored block {th}"));
+            return false;
+        };
+        if pos >= orig.transactions.len() || orig.transactions[pos] == repl.real() {
+            out.skipped = Some("replacement equals the original transaction".into());
+            return false;
+        }
+        out.original = show_real_tx(&orig.transactions[pos]);
+        let mut forged = orig.clone();
+        forged.transactions[pos] = repl.real();
+        out.root_same = forged.compute_tx_root() == orig.compute_tx_root();
+        out.root_verifies = forged.verify_tx_root();
+        write_block(store, th, &forged);
+        true
+    };
+    if public {
+        let store = TensorStore::new();
+        let mut cfg = ChainConfig::new("n").with_max_txs(1000);
+        cfg.auto_merge = AutoMergeConfig { enabled: false, orthogonal_threshold: 0.1, max_merge_batch: 10, merge_window_ms: u64::MAX / 4 };
+        let tc = TensorChain::with_identity(store.clone(), cfg, node_identity());
+        tc.initialize().unwrap();
+        cmp(&mut m, &mut follow, &mut out, "ok", "init 1000 0 10 0", None);
+        let mut ts = 1u64;
+        for (w, txs) in blocks.iter().enumerate() {
+            let ws = tc.begin().unwrap();
+            ws.set_before_embedding(&vec![0.0; DIM]);
+            ws.compute_delta(&unit(0));
+            cmp(&mut m, &mut follow, &mut out, &format!("ws {w}"), "begin", None);
+            cmp(&mut m, &mut follow, &mut out, "ok", &format!("dir {w} 0"), None);
+            for t in txs {
+                let r = ws.add_operation(t.real());
+                let line = match t {
+                    Tx::Put(k, v) => show_op(&Op::Put(w, *k, *v)),
+                    Tx::Del(k) => show_op(&Op::Del(w, *k)),
+                    Tx::Cas(k, e, v) => show_op(&Op::Cas(w, *k, *e, *v)),
+                };
+                cmp(&mut m, &mut follow, &mut out, &r.as_ref().map_or_else(verr, |()| "ok".into()), &line, None);
+                if r.is_err() {
+                    out.skipped = Some(format!("add_operation refused {}", t.show()));
+                    return out;
+                }
+            }
+            let r = tc.commit(&ws);
+            ts += 1;
+            let imp = match &r {
+                Ok(_) => format!("ok h={}", tc.height()),
+                Err(e) => verr(e),
+            };
+            cmp(&mut m, &mut follow, &mut out, &imp, &format!("commit {w} {ts}"), Some(" txs="));
+            if r.is_err() {
+                out.skipped = Some(format!("commit of block {} failed: {imp}", w + 1));
+                return out;
+            }
+        }
+        out.verify_before = verify_registered(&tc);
+        cmp(&mut m, &mut follow, &mut out, &state_line(&tc, &store), "state", None);
+        if let Some(b) = read_block(&store, th) {
+            // the block holds the workspace's operations in the order they were added
+            cmp(&mut m, &mut follow, &mut out, &show_list(b.transactions.iter().map(show_real_tx).collect(), false), &format!("nblocktxs {th}"), None);
+        }
+        if !alter(&store, &mut out) {
+            return out;
+        }
+        out.verify_after = verify_registered(&tc);
+        cmp(&mut m, &mut follow, &mut out, "ok", &format!("naltertx {th} {pos} {}", repl.show()), None);
+        cmp(&mut m, &mut follow, &mut out, &state_line(&tc, &store), "state", None);
+    } else {
+        let rc = new_raw(true);
+        cmp(&mut m, &mut follow, &mut out, "ok", "cinit 1 1000", None);
+        for (j, txs) in blocks.iter().enumerate() {
+            let ts_off = 1000 + 2 * j as u64;
+            let prop = 1 + j % 2;
+            let b = mk_block(&rc, "ok", "ok", "ok", "ok", ts_off, prop, txs);
+            let imp = rc.chain.append(b).map_or_else(|e| verr(&e), |_| "ok".into());
+            cmp(&mut m, &mut follow, &mut out, &imp, &format!("cappend ok ok ok ok {ts_off} {prop} {}", show_txs(txs)), None);
+            if imp != "ok" {
+                out.skipped = Some(format!("append of block {} refused: {imp}", j + 1));
+                return out;
+            }
+        }
+        out.verify_before = vres(rc.chain.verify_chain());
+        let vb = out.verify_before.clone();
+        cmp(&mut m, &mut follow, &mut out, &vb, "cverify", None);
+        if !alter(&rc.store, &mut out) {
+            return out;
+        }
+        out.verify_after = vres(rc.chain.verify_chain());
+        cmp(&mut m, &mut follow, &mut out, "ok", &format!("altertx {th} {pos} {}", repl.show()), None);
+        let va = out.verify_after.clone();
+        cmp(&mut m, &mut follow, &mut out, &va, "cverify", None);
+    }
+    out
+}
+/// a transaction different from `orig`: another value, another key, another kind, or a copy of a sibling
+fn alter_tx(kind: u64, orig: &Tx, sibling: Option<&Tx>) -> Tx {
+    let by_value = match orig {
+        Tx::Put(k, v) => Tx::Put(*k, v + 1000),
+        Tx::Del(k) => Tx::Put(*k, 1),
+        Tx::Cas(k, e, v) => Tx::Cas(*k, *e, v + 1000),
+    };
+    match kind {
+        1 => match orig {
+            Tx::Put(k, v) => Tx::Put(k + 7, *v),
+            Tx::Del(k) => Tx::Del(k + 7),
+            Tx::Cas(k, e, v) => Tx::Cas(k + 7, *e, *v),
+        },
+        2 => match orig {
+            Tx::Put(k, _) | Tx::Cas(k, ..) => Tx::Del(*k),
+            Tx::Del(k) => Tx::Cas(*k, None, 5),
+        },
+        3 => match sibling {
+            Some(s) if s != orig => s.clone(),
+            _ => by_value,
+        },
+        _ => by_value,
+    }
+}
+
 fn main() {
     let args = parse_args();
     let mut rep = Report::new(
         "seeded op sequences / block sequences / mutations; a case is non-trivial when it appends or commits at least one \
          block (workspace stream: >=1 successful non-empty commit; append stream: >=1 accepted block; tamper stream: one \
-         mutation applied to a stored block of a verifying chain; replay: >=1 block applied; concurrent: >=1 commit Ok; \
+         mutation applied to a stored block of a verifying chain; tamper.tx: one transaction of one stored block of a verifying chain replaced by a different one; replay: >=1 block applied; concurrent: >=1 commit Ok; \
          late_fail: >=1 commit of the history returned an error; reopen and directed.append_crash: every case (a restart over a chain of >=1 appended / committed block, or over a store a stopped commit left behind); \
          replay.verdicts: >=1 block accepted and >=1 rejected; replay.fastpath: >=1 block accepted through the fast path and >=1 block rejected; variants: >=1 successful commit); distinct = distinct canonical case text",
     );
@@ -2097,6 +2321,9 @@ fn main() {
         "replay.fastpath.defect_on_fast_path.height_skip", "replay.fastpath.defect_on_fast_path.prev_bad", "replay.fastpath.defect_on_fast_path.txroot_bad",
         "replay.fastpath.defect_on_fast_path.sig_none", "replay.fastpath.defect_on_fast_path.sig_bad", "replay.fastpath.defect_on_fast_path.sig_wrongkey",
         "replay.fastpath.model_followed_to_the_end",
+        "tamper.tx.public.detected", "tamper.tx.raw.detected", "tamper.tx.verify_after.err tx_root", "tamper.tx.pos.first", "tamper.tx.pos.inner", "tamper.tx.pos.last",
+        "tamper.tx.altered_block.tip", "tamper.tx.altered_block.below_tip", "tamper.tx.size.01", "tamper.tx.size.05", "tamper.tx.size.06", "tamper.tx.size.09", "tamper.tx.size.10",
+        "tamper.tx.size.11", "tamper.tx.size.12", "tamper.tx.size.13", "tamper.tx.size.17", "tamper.tx.size.18+", "merkle.mut6.different", "merkle.mut7.different",
         "variants.late_fail.failed", "variants.op.Put", "variants.op.Delete", "variants.op.Embed", "variants.op.NodeCreate", "variants.op.NodeDelete",
         "variants.op.EdgeCreate", "variants.op.TableInsert", "variants.op.TableUpdate", "variants.op.TableDelete", "variants.op.CompareAndSwap",
     ]
@@ -2503,6 +2730,119 @@ fn main() {
         }
     }
     lap("directed");
+    // ---------------- stream T: ONE TRANSACTION of a stored block altered.  A chain is built through the public
+    // interface — a `TensorChain` (one workspace per block: begin / add_operation / commit, checked with `verify()`)
+    // or a `Chain` with registered validator keys (one signed block per `append`, checked with `verify_chain()`) —,
+    // it verifies, then exactly one transaction of one STORED block is replaced by a different transaction (value,
+    // key or kind changed, or a copy of a sibling; the number of transactions and the header stay) and the chain is
+    // verified again.  Blocks of 1..=17 transactions with EVERY position altered, then random sizes up to 40 in chains
+    // of 1-3 blocks (altered block at the tip or below it), positions biased to the tail.  Directed cases run first,
+    // independent of the seed: blocks of 5, 6, 9, 10, 11, 12, 13 transactions — the sizes at which some INNER level
+    // of the Merkle tree has an odd number of nodes — with their LAST transactions altered, last first.  The model
+    // follows every step (`verifyChain` over the altered store: `err tx_root`).  Property oracles on the real
+    // objects alone, shrunk over the transaction lists:
+    //  (a) verification after the alteration must fail                                           [ALTERED_TX_CLASS]
+    //  (b) the altered block's `compute_tx_root()` differs from the original's, `verify_tx_root()` is false
+    //                                                                                             [ALTERED_LEAF_CLASS]
+    // Lean: every_transaction_influences_tx_root, altered_transaction_detected (Props5).
+    {
+        let mut r = root.fork("tamper.tx");
+        let mut cases: Vec<(String, bool, Vec<TxItem>, Tx)> = Vec::new();
+        let puts = |h: usize, n: usize, mark: Option<usize>| -> Vec<TxItem> {
+            (0..n).map(|i| TxItem { block: h, tx: Tx::Put(i as u64, (100 * h + i + 1) as u64), altered: mark == Some(i) }).collect()
+        };
+        for n in [5usize, 6, 9, 10, 11, 12, 13] {
+            for pos in (n / 2..n).rev() {
+                for public in [true, false] {
+                    // block 1 holds the n transactions, block 2 one more (the altered block is not the tip)
+                    let mut items = puts(1, n, Some(pos));
+                    items.extend(puts(2, 1, None));
+                    let repl = alter_tx(0, &items[pos].tx, None);
+                    cases.push((format!("directed.last_of_{n}"), public, items, repl));
+                }
+            }
+        }
+        for n in 1..=17usize {
+            for pos in 0..n {
+                let mut val = 0u64;
+                let public = (n + pos) % 2 == 0;
+                let tip = r.chance(1, 3);
+                let txs = gen_txs(&mut r, n, &mut val);
+                let mut items: Vec<TxItem> = txs.iter().enumerate().map(|(i, t)| TxItem { block: 1, tx: t.clone(), altered: i == pos }).collect();
+                if !tip {
+                    items.extend(gen_txs(&mut r, 1, &mut val).into_iter().map(|tx| TxItem { block: 2, tx, altered: false }));
+                }
+                let sib = txs.get((pos + 1) % n);
+                let repl = alter_tx(r.below(4), &txs[pos], sib);
+                cases.push(("sweep".to_string(), public, items, repl));
+            }
+        }
+        for _ in 0..120 * scale {
+            let mut val = 0u64;
+            let nblocks = 1 + r.below(3) as usize;
+            let tb = r.below(nblocks as u64) as usize;
+            let mut items = Vec::new();
+            let mut repl = Tx::Del(0);
+            for b in 0..nblocks {
+                if b != tb {
+                    let k = 1 + r.below(3) as usize;
+                    items.extend(gen_txs(&mut r, k, &mut val).into_iter().map(|tx| TxItem { block: b, tx, altered: false }));
+                    continue;
+                }
+                // sizes: half of them 5..=17, the rest 1..=40
+                let n = if r.chance(1, 2) { 5 + r.below(13) as usize } else { 1 + r.below(40) as usize };
+                // position: half of them among the last four
+                let pos = if r.chance(1, 2) { n - 1 - (r.below(4) as usize).min(n - 1) } else { r.below(n as u64) as usize };
+                let txs = gen_txs(&mut r, n, &mut val);
+                repl = alter_tx(r.below(4), &txs[pos], txs.get(r.below(n as u64) as usize));
+                items.extend(txs.into_iter().enumerate().map(|(i, tx)| TxItem { block: b, tx, altered: i == pos }));
+            }
+            cases.push(("seeded".to_string(), r.chance(1, 2), items, repl));
+        }
+        for (ci, (name, public, items, repl)) in cases.iter().enumerate() {
+            let public = *public;
+            let out = run_tx_alter_case(Some(&mut m), public, items, repl);
+            let iface = if public { "TensorChain: begin / add_operation / commit per block, verify() (node key registered)" } else { "Chain with a validator registry: one signed block per append, verify_chain()" };
+            let describe = |o: &TxAlterOut| json!({"stream": "tamper.tx", "case": name, "interface": iface,
+                "blocks": o.blocks.iter().map(|b| show_txs(b)).collect::<Vec<_>>(), "altered_block": o.target.0, "transactions_in_altered_block": o.blocks.get(o.target.0 as usize - 1).map_or(0, Vec::len),
+                "altered_position": o.target.1, "original": o.original, "replacement": repl.show(), "verify_before": o.verify_before, "verify_after": o.verify_after,
+                "tx_root_unchanged": o.root_same, "verify_tx_root_of_altered_block": o.root_verifies});
+            for (at, imp, model) in &out.disagreements {
+                rep.disagree("tamper.tx", json!({"case": name, "public_interface": public, "blocks": out.blocks.iter().map(|b| show_txs(b)).collect::<Vec<_>>(), "altered_block": out.target.0, "altered_position": out.target.1, "replacement": repl.show(), "at": at}), imp, model);
+            }
+            let path = if public { "public" } else { "raw" };
+            if let Some(why) = &out.skipped {
+                rep.hit(&format!("tamper.tx.skipped.{}", why.split(' ').next().unwrap_or("")));
+            } else {
+                let n = out.blocks[out.target.0 as usize - 1].len();
+                rep.hit(&format!("tamper.tx.{path}.{}", if out.verify_after == "ok" { "undetected" } else { "detected" }));
+                rep.hit(&format!("tamper.tx.verify_after.{}", out.verify_after.split(' ').take(2).collect::<Vec<_>>().join(" ")));
+                rep.hit(&format!("tamper.tx.size.{}", if n <= 17 { format!("{n:02}") } else { "18+".to_string() }));
+                rep.hit(&format!("tamper.tx.pos.{}", if out.target.1 + 1 == n { "last" } else if out.target.1 == 0 { "first" } else { "inner" }));
+                rep.hit(&format!("tamper.tx.altered_block.{}", if out.target.0 as usize == out.blocks.len() { "tip" } else { "below_tip" }));
+            }
+            type Pred = fn(&TxAlterOut) -> bool;
+            let oracles: [(&str, Pred, &str); 2] = [
+                (ALTERED_TX_CLASS, TxAlterOut::undetected, "a chain built through the public interface verified; ONE transaction of one stored block was replaced by a different transaction (same number of transactions, header untouched) and verification still returns Ok: the block's transaction root does not cover that transaction (Lean: altered_transaction_detected / every_transaction_influences_tx_root)"),
+                (ALTERED_LEAF_CLASS, TxAlterOut::same_root, "ONE transaction of a block was replaced by a different transaction and Block::compute_tx_root() is unchanged / Block::verify_tx_root() still true (Lean: every_transaction_influences_tx_root)"),
+            ];
+            for (class, pred, what) in oracles {
+                if !pred(&out) {
+                    continue;
+                }
+                let mut fails = |cand: &[TxItem]| -> bool { pred(&run_tx_alter_case(None, public, cand, repl)) };
+                let small = if rep.violations.iter().any(|v| v["class"] == class) { items.clone() } else { shrink_list(items, &mut fails) };
+                let again = run_tx_alter_case(None, public, &small, repl);
+                violation(&mut rep, class, what, describe(if pred(&again) { &again } else { &out }));
+            }
+            let text = format!("{name} {public} {} {}", items.iter().map(|i| format!("{}{}{}", i.block, if i.altered { "*" } else { ":" }, i.tx.show())).collect::<Vec<_>>().join(","), repl.show());
+            rep.case("tamper.tx", if out.skipped.is_none() { Some(&text) } else { None });
+            if ci == 0 {
+                rep.sample(describe(&out));
+            }
+        }
+    }
+    lap("tamper.tx");
     // ---------------- stream F: replicas as OBJECTS.  Two or three real `TensorStateMachine` replicas (separate state
     // stores, one genesis block) are fed the SAME block sequence; the blocks carry delta embeddings of a few direction
     // classes, so the fast path is really taken (counted: replay.fastpath.path.fast.*), and the replicas' recent-
@@ -2856,8 +3196,9 @@ fn main() {
             let mut val = 0u64;
             let mut lines = Vec::new();
             for j in 0..*n {
-                // block sizes 0..4, with 3 forced regularly so that the duplicated-tail case is present
-                let ntx = if j % 3 == 0 { 3 } else { r.below(5) as usize };
+                // block sizes 0..4, with 3 forced regularly so that the duplicated-tail case is present, and every fourth
+                // block of a size at which an inner level of the Merkle tree is odd
+                let ntx = if j % 3 == 0 { 3 } else if j % 4 == 1 { *r.pick(&[5usize, 6, 9, 10, 13]) } else { r.below(5) as usize };
                 let txs = gen_txs(&mut r, ntx, &mut val);
                 let prop = 1 + r.below(2) as usize;
                 let ts_off = 1000 + j * 2;
@@ -2881,7 +3222,8 @@ fn main() {
                 continue;
             }
             m.ask("csave");
-            let mut check = |rep: &mut Report, m: &mut Model, desc: String, mline: String, field: &str, idx: u64, apply: &dyn Fn() -> bool, undo: &dyn Fn()| {
+            // `pair`: (original, altered) block of a `transactions` mutation
+            let mut check = |rep: &mut Report, m: &mut Model, desc: String, mline: String, field: &str, idx: u64, pair: Option<(&Block, &Block)>, apply: &dyn Fn() -> bool, undo: &dyn Fn()| {
                 if !apply() {
                     let a = m.ask(&mline);
                     rep.compare_c("tamper.applicable", || json!({"mutation": desc}), "skip", &a);
@@ -2900,6 +3242,16 @@ fn main() {
                         "tensor_chain.verify/genesis_only_chain_unchecked".to_string()
                     } else if idx == 0 {
                         format!("tensor_chain.verify/genesis_{field}_tamper_undetected")
+                    } else if let ("transactions", Some((o, nb))) = (field, pair) {
+                        // the known weakness of `merkle_root` (a duplicated odd tail) is exactly: the documented tree gives
+                        // both transaction lists one root for EVERY hash function.  Anything else undetected is not it.
+                        if symbolic_tx_root(&o.transactions) == symbolic_tx_root(&nb.transactions) {
+                            "tensor_chain.verify/transactions_tamper_undetected".to_string()
+                        } else if o.transactions.len() == nb.transactions.len() {
+                            ALTERED_TX_CLASS.to_string()
+                        } else {
+                            TX_COUNT_CLASS.to_string()
+                        }
                     } else {
                         format!("tensor_chain.verify/{field}_tamper_undetected")
                     };
@@ -2928,6 +3280,7 @@ fn main() {
                         format!("tamper {i} {field} {variant}"),
                         field,
                         i,
+                        mutated.as_ref().map(|nb| (&orig, nb)),
                         &|| {
                             if let Some(nb) = &mutated {
                                 write_block(&rc.store, i, nb);
@@ -2942,7 +3295,7 @@ fn main() {
                 // removal
                 let key = format!("chain:block:{i}");
                 let saved = rc.store.get(&key).unwrap();
-                check(&mut rep, &mut m, format!("remove block {i}"), format!("remove {i}"), "removed_block", i, &|| rc.store.delete(&key).is_ok(), &|| rc.store.put(key.clone(), saved.clone()).unwrap());
+                check(&mut rep, &mut m, format!("remove block {i}"), format!("remove {i}"), "removed_block", i, None, &|| rc.store.delete(&key).is_ok(), &|| rc.store.put(key.clone(), saved.clone()).unwrap());
                 // reorder: swap with the next block
                 if i < *n {
                     let other = read_block(&rc.store, i + 1).unwrap();
@@ -2953,6 +3306,7 @@ fn main() {
                         format!("swap {i} {}", i + 1),
                         "reordered_blocks",
                         i,
+                        None,
                         &|| {
                             write_block(&rc.store, i, &other);
                             write_block(&rc.store, i + 1, &orig);
@@ -3216,10 +3570,10 @@ fn main() {
     let mut r = root.fork("merkle");
     for _ in 0..400 * scale {
         let mut val = 0;
-        let n = r.below(9) as usize;
+        let n = r.below(18) as usize;
         let a = gen_txs(&mut r, n, &mut val);
         let mut b = a.clone();
-        let kind = r.below(6);
+        let kind = r.below(8);
         match kind {
             0 => {
                 if let Some(l) = b.last().cloned() {
@@ -3241,12 +3595,22 @@ fn main() {
                     b.push(l);
                 }
             }
+            // one transaction replaced: anywhere / among the last four
+            6 | 7 if n > 0 => {
+                let pos = if kind == 6 { r.below(n as u64) as usize } else { n - 1 - (r.below(4) as usize).min(n - 1) };
+                b[pos] = alter_tx(r.below(4), &a[pos], a.get(r.below(n as u64) as usize));
+            }
             _ => {}
         }
         let ba = Block::new(BlockHeader::default(), a.iter().map(Tx::real).collect());
         let bb = Block::new(BlockHeader::default(), b.iter().map(Tx::real).collect());
         let imp = if ba.compute_tx_root() == bb.compute_tx_root() { "equal" } else { "different" };
         rep.hit(&format!("merkle.mut{kind}.{imp}"));
+        // oracle (implementation only; Lean: txRoot_inj_of_length_eq / every_transaction_influences_tx_root): two
+        // different transaction lists of ONE length never share a root
+        if imp == "equal" && a != b && a.len() == b.len() {
+            violation(&mut rep, ALTERED_LEAF_CLASS, "two different transaction lists of the same length have the same Block::compute_tx_root()", json!({"stream": "merkle", "txs_a": show_txs(&a), "txs_b": show_txs(&b), "transactions": a.len()}));
+        }
         rep.compare_c("merkle.eq", || json!({"a": show_txs(&a), "b": show_txs(&b)}), imp, &m.ask(&format!("txroot_eq {} {}", show_txs(&a), show_txs(&b))));
         let mkey = format!("{} {}", show_txs(&a), show_txs(&b));
         rep.case("merkle", if a.len() >= 2 { Some(&mkey) } else { None });
